@@ -99,9 +99,10 @@ class WriterProduct(explorer.Product):
         try:
             arr = real.to_bytearray()
             got = (len(real), bytes(arr), bool(real.string_sanitization_mode))
-            arr.append(0x55)  # the returned array must be a copy
-            if bytes(real.to_bytearray()) != got[1]:
-                return "to_bytearray() exposes the writer's internal buffer"
+            if isinstance(arr, bytearray):
+                arr.append(0x55)  # a mutable result must be a copy, or later writes are not "appended to the contents"
+                if bytes(real.to_bytearray()) != got[1]:
+                    return "to_bytearray() exposes the writer's internal buffer"
         except Exception as e:  # noqa: BLE001
             return f"observation raised {type(e).__name__}: {e}"
         exp = (len(model.buf), bytes(model.buf), model.san)
